@@ -1,5 +1,5 @@
 """C01 — convolution equals the ideal separable filter: plumbing clauses only (DESIGN §4 C01)."""
-from ..engines import axis
+from ..engines import axis, formulas
 from ..engines.tables import Switch, enum_variants
 from ..engines.validators import closure_return
 from ..facts import CheckError
@@ -266,3 +266,4 @@ def run(rep, tier):
         rep.call(alg_table, rep, prog, "C01.alg-table")
         rep.call(support, rep, prog, "C01.support")
         rep.call(window_clamp, rep, prog, "C01.window-clamp")
+        rep.call(formulas.coefficients_formula, rep, prog, "C01.formula")
